@@ -308,6 +308,15 @@ class MiniMallocate(RewritePattern):
         )
         for memory in memory_spaces:
             buffers_subset = [buffer for buffer in buffers if buffer_ops[buffer.id].memory_space == memory.attribute]
+            # the solver aligns the offsets inside the memory, the pointers are offset + memory.start
+            for buffer in buffers_subset:
+                alignment_attr = buffer_ops[buffer.id].alignment
+                alignment = 0 if alignment_attr is None else alignment_attr.value.data
+                if alignment != 0 and memory.start % alignment != 0:
+                    raise RuntimeError(
+                        f"Memory space {memory.attribute.data} starts at {memory.start}, "
+                        f"allocations cannot be aligned to {alignment} bytes"
+                    )
             problem = Problem(buffers_subset, memory.capacity)
             solution = problem.solve()
             for buffer, offset in zip(buffers_subset, solution):
